@@ -112,6 +112,9 @@ def build_rich(P, names, order, variant):
             obs.append((f"sel.{wk}", sel._selection_dict[w], flag["T2"]))
     for key, ind in inds.items():
         obs.append((f"{key}.value", ind._indicator_variable, None))
+    # the optimised quantities are observables too: equal constraint systems over them have equal optima
+    for k, o in enumerate(pb.objectives.values()):
+        obs.append((f"objective{k}.target", o._target, None))
     if buf is not None:
         for i, lv in enumerate(buf._buffer_levels):
             obs.append((f"B.level{i}", lv, None))
